@@ -351,7 +351,7 @@ func runC30(c *core.Ctx) {
 	c.Floor("FMT4", 150, "the printers hold well over 150 Myprintf calls")
 
 	// ---- FMT6/FMT7: node-typed fields are printed as nodes (through their own Format), whole
-	wholePrinted := map[string]bool{}  // "Type.Field" passed whole to %v (or ranged over / passed to a helper)
+	wholePrinted := map[string]bool{}   // "Type.Field" passed whole to %v (or ranged over / passed to a helper)
 	viaString := map[string]token.Pos{} // "Type.Field" rendered through a method call into %s
 	partial := map[string]token.Pos{}   // "Type.Field.Sub" printed instead of the whole field
 	for n, fd := range formats {
